@@ -37,9 +37,12 @@ Link security, two ways:
                        step every reading / writing operation is run against every attribute of a database whose
                        permission bytes are all combinations of the encryption / authentication requirement on the
                        read and write side (+ authorization), so security going DOWN (encryption off, reconnection)
-                       is judged exactly like security going up. Keys of history violations end in
-                       `<unmet requirement>-requirement/after-<event class>`, the event class being the one after
-                       which the wrong grant was first seen (a wrong state persists over later events).
+                       is judged exactly like security going up. Keys of history violations that depend on the link
+                       end in `encryption-requirement/after-<event class>` or `authentication-requirement/after-<event
+                       class>`, the event class being the one after which the wrong grant was first seen in an unbroken
+                       run of steps (a wrong state persists over later events), or in `authentication-requirement/
+                       link-authenticated-but-not-encrypted` (decided by the state, whichever event led to it);
+                       authorization and access-bit refusals keep the class names of the direct-state cases.
 """
 from __future__ import annotations
 
@@ -268,15 +271,17 @@ class Session:
             # decided by the state, whatever event led to it: authentication completed on this connection, but the
             # link is not (or no longer) encrypted
             return 'authentication-requirement/link-authenticated-but-not-encrypted'
-        base = f'{unmet}-requirement' if unmet else reason_of(m.perm, self.enc, self.auth, write)
-        return f'{base}/after-{self.after}'
+        if unmet not in ('encryption', 'authentication'):
+            # authorization and the access bits do not depend on the link: same class as in a direct-state case
+            return reason_of(m.perm, self.enc, self.auth, write)
+        return f'{unmet}-requirement/after-{self.after}'
 
     def bad(self, key, detail):
         """In a history the stack's state persists over the steps, so a wrong state is seen again after every later
         event that (rightly) changes nothing. The key names the event after which granting against the requirement
         was FIRST seen in the current unbroken run of steps showing it, not the latest event."""
         if self.after is not None:
-            for x in ('encryption', 'authentication', 'authorization'):
+            for x in ('encryption', 'authentication'):
                 tail = f'/{x}-requirement/after-{self.after}'
                 if key.endswith(tail):
                     first = self.blame.setdefault(x, self.after)
